@@ -295,7 +295,7 @@ def run_case(rng, idx, tier, ctx):
                             "history": [(s.get("desc") or s["edit"]["kind"]) if s["op"] == "dev" else
                                         ("check" if s.get("check") else "edit") + ((" " + str(s["plan"]["faults"])) if s.get("plan") else "")
                                         for s in explicit]})
-    if tier == "thorough" and idx % 3 == 0:
+    if tier == "thorough" and idx % 6 == 0:
         viols += sweep(rng, idx, wm, knobs, seed, ctx)
     return viols
 
